@@ -128,6 +128,9 @@ class Endpoint(object):
         b = ctypes.create_string_buffer(8)
         sh.vf_io_first_send_after_fail(b)
         self.first_send_after_fail = b.raw
+        self.t13_calls = sh.vf_t13_calls()
+        self.t13_applied = sh.vf_t13_applied()
+        self.t13_last_len = sh.vf_t13_last_len()
 
     def handshake(self, close_on_fail=True):
         """Thread body: handshake; an endpoint whose handshake fails closes its socket, as an application would."""
@@ -378,7 +381,7 @@ def run_handshake(ctx, srv_ctx, cli_ctx, seed=1, short_io=False, fault=None, use
         ts.join(10)
         tc.join(10)
     res = {'server': srv, 'client': cli, 'proxy': proxy, 'hung': hung, 'secs': time.time() - t0,
-           'socks': (c_end, s_end)}
+           'socks': (c_end, s_end), 'threads': (ts, tc)}
     if proxy and not keep_open:
         proxy.stop_flag = True
         proxy.join(10)
@@ -398,8 +401,20 @@ def close_pair(res):
         p.join(10)
     for s in res['socks']:
         try:
+            s.shutdown(socket.SHUT_RDWR)
+        except OSError:
+            pass
+    alive = False
+    for t in res.get('threads', ()):
+        t.join(60)
+        alive = alive or t.is_alive()
+    for s in res['socks']:
+        try:
             s.close()
         except OSError:
             pass
+    if alive:
+        res['leaked'] = True       # never free memory a library thread may still touch
+        return
     res['server'].free()
     res['client'].free()
